@@ -1113,3 +1113,36 @@ func checkKeyedList(line string, isLet, child bool) string {
 	}
 	return ""
 }
+
+
+// literalHelpers finds the functions that decode the text of the three literal tokens, by what the primary-expression
+// parser calls for each of them (not by name): "string", "quoted", "json".
+var literalHelpersCache = map[*Program]map[string]*ssa.Function{}
+
+func literalHelpers(p *Program) map[string]*ssa.Function {
+	if m, ok := literalHelpersCache[p]; ok {
+		return m
+	}
+	out := map[string]*ssa.Function{}
+	literalHelpersCache[p] = out
+	d := newParserDom(p)
+	if d.why != "" {
+		return out
+	}
+	rl := d.inferRoles()
+	if rl.primary == nil {
+		return out
+	}
+	for kind, tok := range map[string]string{"string": "StringLiteralToken", "quoted": "QuotedIdentifierToken", "json": "JSONLiteralToken"} {
+		e, st := d.start(rl.primary)
+		d.SetToken(st, 1, tok, nil)
+		for _, o := range e.Run(rl.primary, d.argsFor(rl.primary, avNil{}, 0, false), st) {
+			for _, ev := range o.St.Trace {
+				if ev.Kind == "lit" {
+					out[kind] = ev.Fn
+				}
+			}
+		}
+	}
+	return out
+}
